@@ -146,6 +146,41 @@ def r3_rewrites_truncate(ctx):
         r.anchor_missing("VaultFileWriter::replace_vault")
 
 
+def r3b_db_rewrite_replaces_rows(ctx):
+    ws = ctx.ws
+    r = ctx.rule("C01-R3b", "a whole-vault rewrite in the database removes the folder's old secret rows before inserting the new ones",
+                 floor=1, kind="K2 ordering")
+    fns = [f for f in ws.fns.values() if re.search(r"FolderEntity.*::upsert_folder_and_secrets$", f.root)]
+    if not fns:
+        r.anchor_missing("FolderEntity::upsert_folder_and_secrets")
+        return
+    f = fns[0]
+    found = False
+    for b in f.bodies:
+        live = cfg.live_blocks(b)
+        ins = [i for i, t in idioms.real_calls(b, live) if cname(t) == "insert_folder_secrets"]
+        if not ins:
+            continue
+        found = True
+        dels = [i for i, t in idioms.real_calls(b, live) if cname(t) in ("delete_all_secrets", "replace_all_secrets")]
+        upd = [i for i, t in idioms.real_calls(b, live) if cname(t) == "update_folder"]
+        k = f.root + "|delete-before-insert"
+        if not dels:
+            r.violation(k, cfg.loc(b, ins[0]), "an existing folder is rewritten without deleting its old secret rows: secrets absent from the new vault stay in the database", work=len(live))
+            continue
+        # on the existing-folder path (after update_folder) the insert must pass the delete
+        start = []
+        for u in upd:
+            sst, _ = idioms.success_start(b, u)
+            start.extend(sst)
+        if start and any(x in cfg.reach(b, start, cut_blocks=dels) for x in ins):
+            r.violation(k, cfg.loc(b, ins[0]), "on the existing-folder path the new rows can be inserted without the old ones having been deleted", work=len(live))
+        else:
+            r.ok(k, cfg.loc(b, dels[0]), "delete_all_secrets precedes insert_folder_secrets when the folder already exists", work=len(live))
+    if not found:
+        r.anchor_missing("insert_folder_secrets call in upsert_folder_and_secrets")
+
+
 def r4_sql_scoping(ctx):
     ws = ctx.ws
     r = ctx.rule("C01-R4", "every UPDATE/DELETE on vault rows is scoped to its folder (and row)",
@@ -212,5 +247,6 @@ def run(ctx):
     r1_mirror_before_memory(ctx)
     r2_sibling_entries(ctx)
     r3_rewrites_truncate(ctx)
+    r3b_db_rewrite_replaces_rows(ctx)
     r4_sql_scoping(ctx)
     r5_reload_covers_every_folder(ctx)
